@@ -245,7 +245,20 @@ func runScenarioW(t fataler, full *util.MemoryNodeDB, root []byte, model map[str
 			i++
 			return nil
 		})
-		donor = util.NewLevelNodeDB(cur, prev, false)
+		lvl := util.NewLevelNodeDB(cur, prev, false)
+		// the level has replaced some nodes that only its lower layer holds (it remembers such deletions, the lower
+		// layer keeps the nodes and the level goes on serving them)
+		j := 0
+		_ = prev.Iterate(context.Background(), func(ctx context.Context, key util.Key, node util.Node) error {
+			if _, err := cur.GetNode(key); err != nil {
+				if j%2 == 0 {
+					_ = lvl.DeleteNode(key)
+				}
+				j++
+			}
+			return nil
+		})
+		donor = lvl
 	case "level-persistent":
 		p, dir := mptkit.NewPNodeDB()
 		defer mptkit.DropDir(dir)
